@@ -342,6 +342,14 @@ func (rw *rewriter) collect(f *ast.File) {
 			}
 		case *ast.IncDecStmt:
 			markLHS(x.X)
+		case *ast.SliceExpr:
+			// slicing an ARRAY makes a writable alias of its storage (the callee / later code writes through
+			// it unseen): counted as a write of the array holder. Slicing a slice only reads its header.
+			if t := typeOf(x.X); t != nil {
+				if _, isArr := t.Underlying().(*types.Array); isArr {
+					markLHS(x.X)
+				}
+			}
 		case *ast.ValueSpec:
 			if len(x.Names) == 2 && len(x.Values) == 1 {
 				if u, ok := x.Values[0].(*ast.UnaryExpr); ok && u.Op == token.ARROW {
